@@ -17,17 +17,20 @@ def gen_case(rng, i):
     period = rng.pick([1, 2, 3, 5, 10])
     if i == 0:
         q, cold, period = 3, 5, 1          # the recorded finding: threshold / cold factor below one request
+    if i == 1:
+        q, cold, period = 1e19, 3, 5       # the recorded finding: token range saturated
     base = 1_700_000_000_000 + rng.randrange(0, 1000) * 1000 + rng.pick([0, 0, 1, 250, 499, 500, 999])
     ops = []
     sat = False
-    style = rng.randrange(4) if i else 0
+    style = rng.randrange(8) if i > 1 else (0 if i == 0 else 3)
+    style = style if style < 2 else 2 + style % 2
     ceff = 3 if cold <= 1 else cold
-    if style == 0 and q > 30:
+    if style == 0 and (q > 20 or (period > 5 and i % 4)):
         style = 2
     if style == 0:
         # saturating demand (single requests) from the start: every 100/250/500 ms ask for more than q; read once per second
         sat = True
-        step = rng.pick([100, 250, 500])
+        step = rng.pick([250, 500, 500])
         burst = int(q) + 2
         secs = 2 * period + rng.pick([3, 4, 6])
         t = 0
@@ -79,7 +82,7 @@ class C08(PropBase):
     case_type = "wcase"
     agree_fn = "agree"
     spec_fn = "spec_c08"
-    counts = {"quick": 400, "thorough": 6000}
+    counts = {"quick": 240, "thorough": 5000}
     rule = ("one warm-up reject flow rule per case (threshold 3-1000 incl. non-integers, cold factor 0-10 where <= 1 means the "
             "default 3, warm-up period 1-10 s, default 1 s statistic) on its own resource; histories: saturating demand from a "
             "cold start with one calculator reading per second for 2p+3..2p+6 s; ramp-up, idle period around 2p s, return; random "
